@@ -228,7 +228,7 @@ theorem opSteps_noOps (cfg : Config) (block : SignedBlock) (p : Nat) (hno : NoOp
     (hpos : 0 < cfg.EPOCHS_PER_HISTORICAL_VECTOR)
     (hlook : (cfg.MIN_SEED_LOOKAHEAD + 1) % cfg.EPOCHS_PER_HISTORICAL_VECTOR ≠ 0)
     (hsmall : cfg.EPOCHS_PER_ETH1_VOTING_PERIOD * cfg.SLOTS_PER_EPOCH * 2 + 2 < 2 ^ 64) :
-    OpSteps cfg block .phase0 (HeadInv cfg p) := by
+    OpSteps cfg block .phase0 (fun _ => HeadInv cfg p) := by
   have hkeep : ∀ ctx st st', HeadInv cfg p ctx st → st'.validators = st.validators → st'.slot = st.slot → st'.fork = st.fork →
       st'.randao_mixes.length = st.randao_mixes.length →
       get_seed cfg st' (get_current_epoch cfg st) DOMAIN_BEACON_PROPOSER = get_seed cfg st (get_current_epoch cfg st) DOMAIN_BEACON_PROPOSER →
@@ -238,10 +238,11 @@ theorem opSteps_noOps (cfg : Config) (block : SignedBlock) (p : Nat) (hno : NoOp
     rw [proposer_frame cfg st st' (sameDuties_of_frame cfg st st' hv hs hseed)]
     exact hi.prop
   refine
-    { fork := fun ctx st hi => hi.fork
+    { mono := fun _ _ _ h => h
+      fork := fun _ ctx st hi => hi.fork
       header := ?_, payload := ?_, withdrawals := ?_, randao := ?_, eth1 := ?_, proposerSlashing := ?_, attesterSlashing := ?_,
       attestation := ?_, deposit := ?_, exit := ?_, blsChange := ?_, sync := ?_ }
-  · intro ctx st hi
+  · intro _ ctx st hi
     refine ⟨sim_header cfg ctx st block p hi.prop hi.ctxp, fun st' h => ?_⟩
     rw [hi.ctxp] at h
     simp only [ofOpt, res_bind_ok] at h
@@ -249,22 +250,22 @@ theorem opSteps_noOps (cfg : Config) (block : SignedBlock) (p : Nat) (hno : NoOp
     exact hkeep ctx st st' hi hv hs hf (by rw [hm]) (seed_of_mixes cfg st st' _ _ hm)
   · intro ctx payload hpl; rw [hno.payload] at hpl; cases hpl
   · intro ctx payload hpl; rw [hno.payload] at hpl; cases hpl
-  · intro ctx st _ _ hi
+  · intro ctx _ st _ _ hi
     refine ⟨sim_randao cfg ctx st block p hi.prop hi.ctxp hi.plt hi.mixes hpos, fun st' h => ⟨?_, fun hf => by cases hf⟩⟩
     obtain ⟨hv, hs, hf, x, hm⟩ := processRandao_frame cfg ctx st st' block h
     refine hkeep ctx st st' hi hv hs hf (by rw [hm, List.length_set]) ?_
     apply seed_set_frame cfg st st' x _ hlook
     rw [hm, hi.mixes]; rfl
-  · intro ctx st _ _ hi
+  · intro ctx _ st _ _ hi
     refine ⟨sim_eth1 cfg st block hsmall, fun st' h => ⟨?_, fun hf => by cases hf⟩⟩
     obtain ⟨hv, hs, hm, hf⟩ := processEth1_frame cfg st st' block.eth1_data h
     exact hkeep ctx st st' hi hv hs hf (by rw [hm]) (seed_of_mixes cfg st st' _ _ hm)
-  · intro ctx st x hx; rw [hno.ps] at hx; cases hx
-  · intro ctx st x hx; rw [hno.as] at hx; cases hx
-  · intro ctx st x hx; rw [hno.att] at hx; cases hx
-  · intro ctx st d hd; rw [hno.dep] at hd; cases hd
-  · intro ctx st x hx; rw [hno.ex] at hx; cases hx
-  · intro ctx st x hx; rw [hno.bls] at hx; cases hx
+  · intro ctx _ st x hx; rw [hno.ps] at hx; cases hx
+  · intro ctx _ st x hx; rw [hno.as] at hx; cases hx
+  · intro ctx _ st x hx; rw [hno.att] at hx; cases hx
+  · intro _ ctx st d hd; rw [hno.dep] at hd; cases hd
+  · intro ctx _ st x hx; rw [hno.ex] at hx; cases hx
+  · intro ctx _ st x hx; rw [hno.bls] at hx; cases hx
   · intro ctx agg hsa; rw [hno.sync] at hsa; cases hsa
 
 /-- `M_block_refines_S` and `M_sound` WITHOUT a premise, for phase0 blocks that carry no operations: fork/container
@@ -278,6 +279,6 @@ theorem processBlock_noOps (cfg : Config) (ctx : Ctx) (st : State) (block : Sign
     (hsmall : cfg.EPOCHS_PER_ETH1_VOTING_PERIOD * cfg.SLOTS_PER_EPOCH * 2 + 2 < 2 ^ 64)
     (htyped : Block.check_types cfg block = .ok ()) :
     Sim (Block.process_block cfg st block) (processBlock cfg ctx st block) :=
-  processBlock_sim (opSteps_noOps cfg block p hno hpos hlook hsmall) ctx st ⟨hfork, hctx, hp, hplt, hmix⟩ htyped
+  processBlock_sim (opSteps_noOps cfg block p hno hpos hlook hsmall) 0 ctx st ⟨hfork, hctx, hp, hplt, hmix⟩ htyped
 
 end Zrnt.Proofs.BlockM
